@@ -88,7 +88,9 @@ class _RedisConsumer(ConsumerT):
                 await asyncio.sleep(self.POLLING_WAIT)
                 continue
             key, _, params = msg
-            if params.is_overdue:
+            # expired messages are dead-lettered only on their way to normal processing,
+            # so that they stay readable through the dead (and delayed) categories
+            if params.is_overdue and self.category == MessageCategory.NORMAL:
                 await self.broker.nack(key)
                 continue
             return msg
